@@ -42,6 +42,11 @@ def gen_for(U, seed, frac, want_forms=None):
                 elif bound and sel.get('kwo') and sel['form'] == 'names' and not sel.get('po') and (i + j) % 2 == 0:
                     # a keyword-only selection that names the parameter receiving the instance: binding consumes it
                     sel = dict(sel, kwo=['self'] + sel['kwo'])
+                elif bound and sel['form'] == 'end' and not sel.get('extra') and (i + j) % 2 == 0:
+                    # posoargs(end=<the parameter receiving the instance>): nothing is left to convert at the bound level
+                    sel = dict(sel, s='self')
+                elif bound and sel.get('po') and sel['form'] in ('names_over_start', 'names_over_end', 'start_over_names', 'end_over_names'):
+                    sel = dict(sel, po=['self'] + [n for n in sel['po'] if n != 'self'])
                 take = rnd.random() < frac
                 if take and k % nshards == shard:
                     yield modif.modif_event('mod/%d-%d' % (i, j), ps, bound, **sel)
